@@ -30,7 +30,7 @@ Definition site_advance_assert    : Z := 1909. (* lib.rs advance:           asse
 Definition site_cap_at_assert     : Z := 1910. (* lib.rs cap_at:            assert!( *self.initialized_ == 0 ) *)
 Definition site_arrayvec_set_len  : Z := 1911. (* arrayvec.rs drop:         set_len's debug_assert!(length <= capacity) *)
 (* ghost sites (no test in the code) *)
-Definition site_vec_set_len       : Z := 1950. (* vec.rs drop: set_len(len + initialized) must stay <= capacity *)
+Definition site_vec_set_len       : Z := 1950. (* vec.rs drop: set_len(len + initialized) must stay <= capacity (std aborts on it when built with debug assertions) *)
 Definition site_parent_counter    : Z := 1951. (* buffer_ref.rs drop: parent counter must stay <= parent buffer length *)
 Definition site_mem_oob           : Z := 1952. (* a byte access outside the root allocation *)
 
@@ -168,17 +168,18 @@ Inductive exit := XOk | XErr | XPanic (site : Z).
    s_init: value of the intermediate's counter when it is dropped.
    Ghost fields (not observable, used by the theorems):
    s_acc: the bytes this view accepted, in order; s_views: every state the view and its
-   children went through; s_reports: (slice reported, bytes accepted so far) at every report *)
+   children went through; s_reports: (where the reported slice starts, slice reported, bytes
+   accepted so far) at every report *)
 Record sout := {
   s_mem : bytes; s_init : nat; s_evs : list ev; s_exit : exit;
-  s_acc : bytes; s_views : list view; s_reports : list (bytes * bytes) }.
+  s_acc : bytes; s_views : list view; s_reports : list (nat * bytes * bytes) }.
 
-Definition stop (m : bytes) (v : view) (acc : bytes) (evs : list ev) (x : exit) (reps : list (bytes * bytes)) : sout :=
+Definition stop (m : bytes) (v : view) (acc : bytes) (evs : list ev) (x : exit) (reps : list (nat * bytes * bytes)) : sout :=
   {| s_mem := m; s_init := v_init v; s_evs := evs; s_exit := x;
      s_acc := acc; s_views := [v]; s_reports := reps |}.
 
 (* put events / ghost records of what happened before in front of a continuation's outcome *)
-Definition before (evs : list ev) (vs : list view) (reps : list (bytes * bytes)) (o : sout) : sout :=
+Definition before (evs : list ev) (vs : list view) (reps : list (nat * bytes * bytes)) (o : sout) : sout :=
   {| s_mem := s_mem o; s_init := s_init o; s_evs := evs ++ s_evs o; s_exit := s_exit o;
      s_acc := s_acc o; s_views := vs ++ s_views o; s_reports := reps ++ s_reports o |}.
 
@@ -194,7 +195,7 @@ Definition read_into (m : bytes) (v : view) (acc : bytes) (fail : bool) (src : b
     match advance v (Z.of_nat (length got)) with
     | (v', Ok _) =>
       match initialized m' v' with
-      | Ok bs => stop m' v' (acc ++ got) [EBytes bs] XOk [(bs, acc ++ got)]
+      | Ok bs => stop m' v' (acc ++ got) [EBytes bs] XOk [(v_off v, bs, acc ++ got)]
       | Panic s => stop m' v' (acc ++ got) [] (XPanic s) []
       | _ => stop m' v' (acc ++ got) [] XErr []
       end
@@ -230,7 +231,7 @@ Fixpoint run (m : bytes) (v : view) (acc : bytes) (p : prog) : sout :=
   | PEnd => stop m v acc [] XOk []
   | PInit =>
     match initialized m v with
-    | Ok bs => stop m v acc [EBytes bs] XOk [(bs, acc)]
+    | Ok bs => stop m v acc [EBytes bs] XOk [(v_off v, bs, acc)]
     | Panic s => stop m v acc [] (XPanic s) []
     | _ => stop m v acc [] XErr []
     end
@@ -334,7 +335,7 @@ Record result := {
   r_evs : list ev; r_exit : exit;
   r_data : bytes;      (* the container afterwards: vec[..], *slice_ref, the whole slice *)
   r_rest : bytes;      (* the memory behind it, up to the capacity *)
-  r_init : nat; r_acc : bytes; r_views : list view; r_reports : list (bytes * bytes) }.
+  r_init : nat; r_acc : bytes; r_views : list view; r_reports : list (nat * bytes * bytes) }.
 
 Definition finish (o : owner) (out : sout) : result :=
   match release o (s_mem out) (s_init out) with
